@@ -37,6 +37,45 @@ func (fc *fileCache) get(rel string) *ast.File {
 	return f
 }
 
+// getAbs parses a file outside the repository (a dependency in the module cache).
+func (fc *fileCache) getAbs(abs string) *ast.File {
+	if abs == "" {
+		return nil
+	}
+	if f, ok := fc.files[abs]; ok {
+		return f
+	}
+	f, err := parser.ParseFile(fc.fset, abs, nil, parser.ParseComments)
+	if err != nil {
+		fc.files[abs] = nil
+		return nil
+	}
+	fc.files[abs] = f
+	return f
+}
+
+// burrowFile locates a file of the Burrow version required by the repository's go.mod in the module cache.
+func burrowFile(rel string) string {
+	mod, err := os.ReadFile(filepath.Join(*repo, "go.mod"))
+	if err != nil {
+		return ""
+	}
+	m := regexp.MustCompile(`(?m)^\s*github.com/hyperledger/burrow\s+(v\S+)`).FindSubmatch(mod)
+	if m == nil {
+		return ""
+	}
+	cache := os.Getenv("GOMODCACHE")
+	if cache == "" {
+		gp := os.Getenv("GOPATH")
+		if gp == "" {
+			home, _ := os.UserHomeDir()
+			gp = filepath.Join(home, "go")
+		}
+		cache = filepath.Join(gp, "pkg", "mod")
+	}
+	return filepath.Join(cache, "github.com/hyperledger/burrow@"+string(m[1]), rel)
+}
+
 func (fc *fileCache) fn(rel, name string) *ast.FuncDecl {
 	f := fc.get(rel)
 	if f == nil {
